@@ -1,7 +1,7 @@
 use hashbrown::{HashMap, HashSet};
 
 use crate::adt::{AdtMetadata, FieldPosition};
-use crate::evolution::SerializedEvolutionStep;
+use crate::evolution::{serialize_field_removed_spelled_out, SerializedEvolutionStep};
 use crate::{
     BinaryOutput, BinarySerializer, Error, Evolution, Result, SerializationContext,
     DEFAULT_CAPACITY,
@@ -33,6 +33,24 @@ impl<'a, 'b, Output: BinaryOutput> AdtSerializer<'a, 'b, Output> {
 
     pub fn new(metadata: &'a AdtMetadata, context: &'b mut SerializationContext<Output>) -> Self {
         context.write_u8(metadata.version);
+
+        // The evolution header is emitted in finish(), after the fields, but it is positioned in
+        // front of them and the reader meets it first. The reader registers the removed field
+        // names it finds there as deduplicated strings, so they get their string ids now, before
+        // anything the fields (and nested records) register - otherwise the ids of the two sides
+        // disagree from here on.
+        for evolution in &metadata.evolution_steps {
+            match evolution {
+                Evolution::FieldRemoved { name } | Evolution::FieldMadeTransient { name } => {
+                    context.state_mut().store_string(name.clone());
+                }
+                Evolution::FieldMadeOptional { name } if metadata.removed_fields.contains(name) => {
+                    context.state_mut().store_string(name.clone());
+                }
+                _ => {}
+            }
+        }
+
         Self {
             metadata,
             context,
@@ -138,7 +156,14 @@ impl<'a, 'b, Output: BinaryOutput> AdtSerializer<'a, 'b, Output> {
                     })
                 }
             }?;
-            step.serialize(self.context)?;
+            match &step {
+                // Never written as a back-reference: a reader of another version may have skipped
+                // the chunk (of this or of an enclosing record) in which the name was introduced.
+                SerializedEvolutionStep::FieldRemoved { field_name } => {
+                    serialize_field_removed_spelled_out(field_name, self.context)?
+                }
+                _ => step.serialize(self.context)?,
+            }
         }
         Ok(())
     }
